@@ -25,7 +25,7 @@ CONFIG = dict(
     ],
     manifest=dict(
         text="Proof over the full state domain. For each of the seven transition functions, every current state (all seven variants, every timestamp, three syscall names x every sub-state), every argument and every clock value, a loop-free Kani harness with a recording listener proves on the real code: at most one report per call; a report carries exactly (old, new) and is an edge of the documented graph (Suspend only once due, Syscall->Syscall only for the same call); exactly one specific callback of the right kind with the old state; no report iff no change; a refused call changes nothing; terminal states are never left; every documented edge is taken when requested. Any sequence of calls is a sequence of such steps, so every reported path is a path in the graph. Tests walk a handful of fixed paths.",
-        note="Trusted: catch_unwind call-through (no unwinding under Kani, so listener panics are not modelled), clock stub, format! stub, struct-literal coroutine, corosensei/dashmap/once_cell shims. The resume path (terminal short-circuit, yield classification) is in the thorough tier.",
+        note="Trusted: catch_unwind call-through (no unwinding under Kani, so listener panics are not modelled), clock stub, format! stub, struct-literal coroutine, corosensei/dashmap/once_cell shims. The resume path (terminal short-circuit, yield classification) is checked by four further units in both tiers.",
         technique="contract-based deductive verification: Kani full-domain harness contracts on the real transition functions with a recording listener",
     ),
     trusted=["Kani 0.68 / CBMC 6.11", "feature `log` off"],
